@@ -704,6 +704,7 @@ theorem WF_step (g : G) (op : Op) (ho : op.ordinary = true) (h : WF g) : WF (ste
   | addIfSource o n i => exact WF_addIfSource _ _ _ _ h
   | addIfSink o n i => exact WF_addIfSink _ _ _ _ h
   | disconnect w o => simp [Op.ordinary] at ho
+  | wires p n k => exact forEach_pred (P := WF) _ (fun g x hg => WF_newWire _ _ _ hg) _ _ h
 
 theorem WF_empty : WF {} :=
   ⟨fun w wr h => by simp at h, fun o ob pid h => by simp at h, fun w wr sp h => by simp at h⟩
